@@ -354,10 +354,15 @@ def ddmin(items, fails, max_tests=200):
 # ---------------------------------------------------------------------------
 
 def load_findings():
-    p = os.path.join(VERIF, "known_findings.json")
-    if not os.path.exists(p):
-        return []
-    return json.load(open(p))["findings"]
+    """Known findings live in /verif/findings/<PID>.json ({"findings": [...]}), committed,
+    never written at run time.  Entry: {property, key, status: open|fixed, commit?, summary, case}."""
+    out = []
+    d = os.path.join(VERIF, "findings")
+    if os.path.isdir(d):
+        for f in sorted(os.listdir(d)):
+            if f.endswith(".json"):
+                out.extend(json.load(open(os.path.join(d, f)))["findings"])
+    return out
 
 
 # ---------------------------------------------------------------------------
